@@ -36,7 +36,7 @@ EXPLANATION = ("PROVED (unbounded, z3): the non-merge branches of _DBCreator._do
 TRUSTED = ["contracts/spec_import.py (reference step model from the statement)", "contracts/importer.py", "T3 SQL model"]
 ASSUMPTIONS = ["A-S1 sqlite3: INSERT of an existing id raises IntegrityError without effect", "A-G always_return_list True during import"]
 PRECONDITIONS = ["the colliding feature's key is obtained by id_spec (C04)"]
-FUNCTIONS = ["gffutils.create:_DBCreator._do_merge", "gffutils.create:_GFFDBCreator._populate_from_lines", "gffutils.create:_GTFDBCreator._populate_from_lines",
+FUNCTIONS = ["gffutils.interface:FeatureDB.delete", "gffutils.create:_DBCreator._do_merge", "gffutils.create:_GFFDBCreator._populate_from_lines", "gffutils.create:_GTFDBCreator._populate_from_lines",
              "gffutils.create:_DBCreator._insert", "gffutils.create:_DBCreator._replace", "gffutils.create:_DBCreator.__init__",
              "gffutils.create:_DBCreator._add_duplicate", "gffutils.create:_DBCreator._candidate_merges"]
 
